@@ -46,6 +46,9 @@ pub fn exec(kv: &Kv) -> String {
             let v = unhex(kv.get("v")).expect("hex");
             let raw = RawAttribute::new(ty.into(), &v);
             match TV::from_raw(kind, &raw) {
+                // a decoded value of more than 65535 bytes cannot be put on the wire (16-bit length): it is not
+                // an in-limit value, so it is not re-encoded (only the decoder's verdict is observed)
+                Ok(_) if v.len() > 65535 => "ok big".to_string(),
                 Ok(tv) => {
                     let w = tv.as_write();
                     let r2 = w.to_raw();
@@ -312,6 +315,19 @@ pub fn gen(which: &str, rng: &mut Rng, count: usize, thorough: bool, out: &mut V
                 }
                 out.push(format!("attr op=dec k={} ty={:04x} v={}", kind, kind_code(kind), hex_or_dash(&v)));
             }
+        }
+        // values of more than 65535 bytes: `RawAttribute::new` keeps only the low 16 bits of the length in
+        // its header, so a decoder that looked at the header length instead of the value would see an
+        // acceptable size (C01: any byte string up to 70000 bytes, never a panic)
+        for (j, &g) in good.iter().enumerate() {
+            if j >= 3 { break; }
+            if !mine(&mut idx) {
+                continue;
+            }
+            let mut v = shaped_value(rng, kind, g);
+            v.extend(shaped_value(rng, kind, 65536));
+            v.truncate(65536 + g);
+            out.push(format!("attr op=dec k={} ty={:04x} v={}", kind, kind_code(kind), hex_or_dash(&v)));
         }
         // wrong-implementation matrix: every other kind's code, plus random codes
         for other in KINDS.iter() {
